@@ -31,6 +31,7 @@
 #include "common.hh"
 #include <memory>
 #include <set>
+#include <map>
 
 static const size_t MD = 32, K0 = TMCG_PRAB_K0, S0 = TMCG_SAEP_S0;
 
@@ -51,7 +52,14 @@ static std::string Hq(const std::string &x)
 }
 static std::string Gq(const std::string &x, size_t n)
 {
-	std::vector<unsigned char> d(n + 1); tmcg_g(d.data(), n, (const unsigned char*)x.data(), x.size()); return std::string((char*)d.data(), n);
+	// answers are cached: the NIZK queries of `check` repeat across the mutated variants of one key
+	static std::map<std::string, std::string> cache;
+	std::string ck = std::to_string(n) + ":" + okey(x) + ":" + std::to_string(x.size());
+	auto it = cache.find(ck); if (it != cache.end()) return it->second;
+	std::string ans;
+	{ std::vector<unsigned char> d(n + 1); tmcg_g(d.data(), n, (const unsigned char*)x.data(), x.size()); ans.assign((char*)d.data(), n); }
+	if (cache.size() < 200000) cache[ck] = ans;
+	return ans;
 }
 static void cap_start() { hashlog.clear(); hashlog.log = true; coins.take(); coins.log = true; }
 static size_t last_gqueries = 0;
@@ -488,7 +496,7 @@ static void check_cases(SplitMix &g, KeyCtx &k, KeyCtx &other, bool thorough)
 	h = f; h[4] = "0"; chk(h, "tag:mut:m:zero");
 	h = f; h[4] = "1"; chk(h, "tag:mut:m:one");
 	h = f; h[4] = "3"; chk(h, "tag:mut:m:three");
-	h = f; h[4] = "0" + f[4]; chk(h, "tag:mut:m:leadingzero");
+	h = f; h[4] = "0" + f[4]; chk(h, "tag:equiv:m:leadingzero");
 	mpz_set_ui(t, 65537); h = f; h[4] = s62(t); chk(h, "tag:mut:m:fermat");
 	mpz_add_ui(t, sk.y, 1); h = f; h[5] = s62(t); chk(h, "tag:mut:y:plus1");
 	h = f; h[5] = "1"; chk(h, "tag:mut:y:one");
@@ -526,6 +534,10 @@ static void check_cases(SplitMix &g, KeyCtx &k, KeyCtx &other, bool thorough)
 	if (n.size() != iend + 1) { emit("prop.rabin nizk.layout => unexpected " + std::to_string(n.size())); return; }
 	emit("prop.rabin nizk.layout => " + std::to_string(n1) + " " + std::to_string(n2) + " " + std::to_string(n3));
 	auto nz = [&](std::function<void(std::vector<std::string>&)> mod, const std::string &tag) {
+		// quick tier: a fixed subset of the catalogue (every variant costs a full run of the three stages)
+		static const char *quick[] = { ":shortened", ":truncated", ":countminus1", ":countplus1", ":countplus", ":valueplus1", ":valuenegated", ":swappedrounds",
+			":magic", ":trailing", ":nofinalhat", ":stage3missing", ":empty", NULL };
+		if (!thorough) { bool keep = false; for (const char **q = quick; *q; q++) { size_t l = strlen(*q); if (tag.size() >= l && !tag.compare(tag.size() - l, l, *q)) keep = true; } if (!keep) return; }
 		std::vector<std::string> nn = n; mod(nn); std::string txt = join_hat(nn);
 		resigned([&](TMCG_SecretKey &c) { c.nizk = txt; }, tag); };
 	size_t idx[3] = { i1, i2, i3 }; size_t cnt[3] = { n1, n2, n3 };
@@ -554,7 +566,6 @@ static void check_cases(SplitMix &g, KeyCtx &k, KeyCtx &other, bool thorough)
 		  nz([&](std::vector<std::string> &nn) { nn[idx[s] + 1 + rnd] = ""; }, "tag:resigned:nizk:" + st + ":valueempty");
 		  nz([&](std::vector<std::string> &nn) { nn[idx[s] + 1 + rnd] = "0"; }, "tag:resigned:nizk:" + st + ":valuezero"); }
 		nz([&](std::vector<std::string> &nn) { std::swap(nn[idx[s] + 1], nn[idx[s] + 2]); }, "tag:resigned:nizk:" + st + ":swappedrounds");
-		if (!thorough && s == 0) continue;
 	}
 	nz([&](std::vector<std::string> &nn) { nn[0] = "nkz"; }, "tag:resigned:nizk:magic");
 	nz([&](std::vector<std::string> &nn) { nn.back() = "trailing^garbage"; }, "tag:equiv:nizk:trailing");
